@@ -201,15 +201,6 @@ impl InterfaceInner {
             return None;
         }
 
-        let (next_header, ip_payload) = if ipv6_repr.next_header == IpProtocol::HopByHop {
-            match self.process_hopbyhop(ipv6_repr, ipv6_packet.payload()) {
-                HopByHopResponse::Discard(e) => return e,
-                HopByHopResponse::Continue(next) => next,
-            }
-        } else {
-            (ipv6_repr.next_header, ipv6_packet.payload())
-        };
-
         if !self.has_ip_addr(ipv6_repr.dst_addr)
             && !self.has_multicast_group(ipv6_repr.dst_addr)
         {
@@ -234,6 +225,17 @@ impl InterfaceInner {
             net_trace!("Rejecting IPv6 packet; no assigned address");
             return None;
         }
+
+        // Only look at the options of packets that are addressed to us: a packet for
+        // somebody else must not be answered, not even with a Parameter Problem.
+        let (next_header, ip_payload) = if ipv6_repr.next_header == IpProtocol::HopByHop {
+            match self.process_hopbyhop(ipv6_repr, ipv6_packet.payload()) {
+                HopByHopResponse::Discard(e) => return e,
+                HopByHopResponse::Continue(next) => next,
+            }
+        } else {
+            (ipv6_repr.next_header, ipv6_packet.payload())
+        };
 
         #[cfg(feature = "socket-raw")]
         let handled_by_raw_socket = self.raw_socket_filter(sockets, &ipv6_repr.into(), ip_payload);
